@@ -21,97 +21,125 @@ type instFn struct {
 }
 
 func instructionFuncs(w *World) []instFn {
-	prog := w.SSA()
-	_ = prog
-	sinks := map[*ssa.Function]int{}
-	for _, n := range []string{"CodeFn", "CodeSubMachine"} {
-		if m := w.TryMethod("xpath", "ProgBuilder", n); m != nil {
-			sinks[w.SSAFunc(m)] = 1 // param index of fn (after receiver)
-		}
-	}
-	sinks[w.SSAFunc(w.Func("xpath", "newInst"))] = 0
-	sinks[w.SSAFunc(w.Func("xpath", "newInstWithSubMachine"))] = 0
-	var out []instFn
-	seen := map[*ssa.Function]bool{}
-	for _, key := range []string{"xpath", "xpath/grammars/expr", "xpath/grammars/leafref", "xpath/grammars/path_eval"} {
+	// An instruction is whatever is stored into Inst.fn.  The stored value is
+	// followed back to the function values it can be: through parameters to
+	// the arguments of every caller (CodeFn → newInst and the like, whatever
+	// they are called), through phis, and into helpers that return a closure.
+	fnField := w.Field("xpath", "Inst", "fn")
+	keys := []string{"xpath", "xpath/grammars/expr", "xpath/grammars/leafref", "xpath/grammars/path_eval"}
+	callers := map[*ssa.Function][]*ssa.Call{}
+	var stores []*ssa.Store
+	for _, key := range keys {
 		for _, fn := range allFuncs(w.SSAPkg(key)) {
 			if isTestFile(w, fn.Pos()) {
 				continue
 			}
 			for _, b := range fn.Blocks {
 				for _, in := range b.Instrs {
-					c, ok := in.(*ssa.Call)
-					if !ok {
-						continue
-					}
-					idx, isSink := sinks[c.Call.StaticCallee()]
-					if !isSink || idx >= len(c.Call.Args) {
-						continue
-					}
-					v := c.Call.Args[idx]
-					for {
-						if ct, ok := v.(*ssa.ChangeType); ok {
-							v = ct.X
-							continue
-						}
-						break
-					}
-					// pass-through (CodeFn → newInst): parameter
-					if _, isParam := v.(*ssa.Parameter); isParam {
-						continue
-					}
-					if phi, ok := v.(*ssa.Phi); ok {
-						for _, ed := range phi.Edges {
-							if mc, ok := ed.(*ssa.MakeClosure); ok {
-								f := mc.Fn.(*ssa.Function)
-								if !seen[f] {
-									seen[f] = true
-									out = append(out, instFn{closure: mc, fn: f, site: c.Pos()})
-								}
-							} else if pf, ok := ed.(*ssa.Function); ok {
-								if !seen[pf] {
-									seen[pf] = true
-									out = append(out, instFn{fn: pf, site: c.Pos()})
-								}
-							} else if k, ok := ed.(*ssa.Const); !ok || !k.IsNil() {
-								out = append(out, instFn{fn: nil, site: c.Pos()})
-							}
-						}
-						continue
-					}
-					switch x := v.(type) {
-					case *ssa.MakeClosure:
-						f := x.Fn.(*ssa.Function)
-						if !seen[f] {
-							seen[f] = true
-							out = append(out, instFn{closure: x, fn: f, site: c.Pos()})
-						}
-					case *ssa.Function:
-						if !seen[x] {
-							seen[x] = true
-							out = append(out, instFn{fn: x, site: c.Pos()})
-						}
+					switch x := in.(type) {
 					case *ssa.Call:
-						// e.g. CodeFn(progBldr.NewPathStackFromActual(), …): the returned closure
-						if callee := x.Call.StaticCallee(); callee != nil {
-							for _, bb := range callee.Blocks {
-								for _, ii := range bb.Instrs {
-									if mc, ok := ii.(*ssa.MakeClosure); ok {
-										f := mc.Fn.(*ssa.Function)
-										if !seen[f] {
-											seen[f] = true
-											out = append(out, instFn{closure: mc, fn: f, site: c.Pos()})
-										}
-									}
-								}
-							}
+						if sc := x.Call.StaticCallee(); sc != nil {
+							callers[sc] = append(callers[sc], x)
 						}
-					default:
-						out = append(out, instFn{fn: nil, site: c.Pos()})
+					case *ssa.Store:
+						if fa, ok := x.Addr.(*ssa.FieldAddr); ok && isFieldAddrOf(fa, fnField) {
+							stores = append(stores, x)
+						}
 					}
 				}
 			}
 		}
+	}
+	var out []instFn
+	seen := map[*ssa.Function]bool{}
+	visited := map[ssa.Value]bool{}
+	add := func(mc *ssa.MakeClosure, f *ssa.Function, site token.Pos) {
+		if f == nil {
+			out = append(out, instFn{fn: nil, site: site})
+			return
+		}
+		if !seen[f] {
+			seen[f] = true
+			out = append(out, instFn{closure: mc, fn: f, site: site})
+		}
+	}
+	var origins func(v ssa.Value, site token.Pos, depth int)
+	origins = func(v ssa.Value, site token.Pos, depth int) {
+		for {
+			if ct, ok := v.(*ssa.ChangeType); ok {
+				v = ct.X
+				continue
+			}
+			break
+		}
+		if visited[v] {
+			return
+		}
+		visited[v] = true
+		if depth > 6 {
+			add(nil, nil, site)
+			return
+		}
+		switch x := v.(type) {
+		case *ssa.MakeClosure:
+			add(x, x.Fn.(*ssa.Function), site)
+		case *ssa.Function:
+			add(nil, x, site)
+		case *ssa.Const:
+			if !x.IsNil() {
+				add(nil, nil, site)
+			}
+		case *ssa.Phi:
+			for _, e := range x.Edges {
+				origins(e, site, depth+1)
+			}
+		case *ssa.Parameter:
+			fn := x.Parent()
+			idx := -1
+			for i, p := range fn.Params {
+				if p == x {
+					idx = i
+				}
+			}
+			if len(callers[fn]) == 0 && fn.Object() != nil && fn.Object().Exported() {
+				// an exported entry point nobody in the module calls: the caller's business
+				return
+			}
+			for _, c := range callers[fn] {
+				if idx >= 0 && idx < len(c.Call.Args) {
+					origins(c.Call.Args[idx], c.Pos(), depth+1)
+				}
+			}
+		case *ssa.Call:
+			// e.g. CodeFn(progBldr.NewPathStackFromActual(), …): the returned closure
+			found := false
+			if callee := x.Call.StaticCallee(); callee != nil {
+				for _, bb := range callee.Blocks {
+					for _, ii := range bb.Instrs {
+						if mc, ok := ii.(*ssa.MakeClosure); ok {
+							found = true
+							add(mc, mc.Fn.(*ssa.Function), site)
+						}
+					}
+				}
+			}
+			if !found {
+				add(nil, nil, site)
+			}
+		case *ssa.UnOp:
+			// a copy of an instruction that already exists (Inst values are copied around)
+			if fa, ok := x.X.(*ssa.FieldAddr); ok && isFieldAddrOf(fa, fnField) {
+				return
+			}
+			add(nil, nil, site)
+		case *ssa.Field:
+			return
+		default:
+			add(nil, nil, site)
+		}
+	}
+	for _, st := range stores {
+		origins(st.Val, st.Pos(), 0)
 	}
 	sort.Slice(out, func(i, j int) bool {
 		a, b := "", ""
